@@ -4,10 +4,12 @@
 package main
 
 import (
+	"bytes"
 	"math/big"
 	"math/rand"
 	"runtime"
 
+	"github.com/pyroscope-io/pyroscope/pkg/storage/dict"
 	"github.com/pyroscope-io/pyroscope/pkg/storage/tree"
 	"github.com/pyroscope-io/pyroscope/pkg/structs/merge"
 	"verifharness/lib"
@@ -31,6 +33,32 @@ func gen(r *rand.Rand, idx int, tier string) Input {
 	for i := 0; i < nt; i++ {
 		ns := lib.Range(r, 0, 6)
 		in.Trees = append(in.Trees, treeu.RandStacks(r, ns, 4, 50))
+	}
+	if r.Intn(4) == 0 {
+		// deep call chains in which inner frames carry their own counts too (every prefix of a stack of depth up to 40
+		// may be a stack): decoders and merges that keep per-depth state see depths 8, 16, 32
+		for i := range in.Trees {
+			if i > 2 && r.Intn(2) == 0 {
+				continue
+			}
+			d := lib.Range(r, 7, 40)
+			var key []byte
+			var ss []treeu.Stack
+			for j := 0; j < d; j++ {
+				if j > 0 {
+					key = append(key, ';')
+				}
+				key = append(key, byte('a'+r.Intn(3)))
+				if j >= 5 && r.Intn(3) != 0 {
+					ss = append(ss, treeu.Stack{Key: append([]byte{}, key...), V: uint64(1 + r.Intn(20))})
+				}
+				if r.Intn(4) == 0 { // a side branch, so that the frame has more than one child
+					ss = append(ss, treeu.Stack{Key: append(append([]byte{}, key...), []byte(";x")...), V: uint64(1 + r.Intn(5))})
+				}
+			}
+			ss = append(ss, treeu.Stack{Key: append([]byte{}, key...), V: uint64(1 + r.Intn(1000))})
+			in.Trees[i] = append(in.Trees[i], ss...)
+		}
 	}
 	in.Workers = lib.Pick(r, []int{1, 2, 3, 4, 8, 16, 32})
 	in.Procs = lib.Pick(r, []int{1, 2, 4, 16})
@@ -105,6 +133,27 @@ func run(in Input) lib.Result {
 	}
 	conc := merge.MergeTriesConcurrently(in.Workers, con...).(*tree.Tree)
 
+	// decoding: the merged tree through both encodings (cap far above its size, so nothing is pruned) and back
+	decode := func(t *tree.Tree) (string, string) {
+		const big = 1 << 20
+		nd, dd := "None", "None"
+		var b1 bytes.Buffer
+		if err := t.SerializeNoDict(big, &b1); err == nil {
+			if t2, err := tree.DeserializeNoDict(bytes.NewReader(b1.Bytes())); err == nil {
+				nd = "(Some " + treeu.Coq(t2.VerifDump()) + ")"
+			}
+		}
+		d := dict.New()
+		var b2 bytes.Buffer
+		if err := t.Serialize(d, big, &b2); err == nil {
+			if t2, err := tree.Deserialize(d, bytes.NewReader(b2.Bytes())); err == nil {
+				dd = "(Some " + treeu.Coq(t2.VerifDump()) + ")"
+			}
+		}
+		return nd, dd
+	}
+	decNoDict, decDict := decode(conc)
+
 	stacks := make([]string, len(in.Trees))
 	total := 0
 	for i, ss := range in.Trees {
@@ -118,6 +167,7 @@ func run(in Input) lib.Result {
 		"; c_workers := " + lib.Nat(in.Workers) +
 		"; c_m := " + lib.N(mUsed) + "; c_d := " + lib.N(dUsed) +
 		"; c_clone := " + treeu.Coq(cl.VerifDump()) +
+		"; c_dec_nodict := " + decNoDict + "; c_dec_dict := " + decDict +
 		"; c_src_untouched := " + lib.Bool(srcUntouched && before == after) + " |}"
 	return lib.Result{
 		Coq:        coq,
